@@ -76,7 +76,7 @@ def _sched(monitor_for, quick=(150, 3), thorough=(2500, 6), extra=None, **genkw)
         if not genkw:
             # structured families every scheduler property is exercised on besides the random scenarios
             n_mix, n_ms = (25, 2) if o.tier == "quick" else (600, 4)
-            scs = [g(rng) for _ in range(n_mix) for g in (scorr.gen_fanin_scenario, scorr.gen_diamond_scenario)]
+            scs = [g(rng) for _ in range(n_mix) for g in (scorr.gen_fanin_scenario, scorr.gen_diamond_scenario, scorr.gen_group_mix_scenario, scorr.gen_ahead_scenario)]
             res2 = scorr.run_sched_suite(driver, rng, len(scs), n_ms, name="families", monitor=monitor_for, scenarios=scs)
             o.suites.append(res2)
             o.violations.extend(res2["violations"])
@@ -112,8 +112,8 @@ def _fanin(name):
     """Extra suite: fan-in scenarios (see sched_corr.gen_fanin_scenario) with the property's monitor."""
     def extra(o, driver, rng):
         import sched_corr as scorr
-        n_sc, n_sched = (100, 3) if o.tier == "quick" else (2500, 5)
-        scs = [scorr.gen_fanin_scenario(rng) for _ in range(n_sc)]
+        n_sc, n_sched = (140, 3) if o.tier == "quick" else (3000, 5)
+        scs = [scorr.gen_fanin_scenario(rng) if i % 2 else scorr.gen_group_mix_scenario(rng) for i in range(n_sc)]
         res = scorr.run_sched_suite(driver, rng, n_sc, n_sched, name="fanin", monitor=_mon(name), scenarios=scs)
         o.suites.append(res)
         o.violations.extend(res["violations"])
